@@ -248,6 +248,10 @@ def run(case, ctx, rng):
         ctx.eq('dec==standard', d, ref(c, K, T, B, True, kbits), **det)
         if not is_exc(e):
             ctx.check('block-length', isinstance(e, bytes) and len(e) == n, len(e), n, **det)
+        o2 = call(build, c, K, T, kbits)
+        if not is_exc(o2):
+            ctx.eq('dec==standard', call(o2.dec, B), ref(c, K, T, B, True, kbits), first_operation='dec', **det)
+            ctx.eq('enc==standard', call(o2.enc, B), ref(c, K, T, B, False, kbits), after_first_dec=True, **det)
         # the same object again, in the other order (a cached schedule must survive both directions)
         ctx.eq('enc==standard', call(obj.enc, B), ref(c, K, T, B, False, kbits), again_after_dec=True, **det)
         ctx.eq('dec==standard', call(obj.dec, B), ref(c, K, T, B, True, kbits), again_after_enc=True, **det)
